@@ -806,7 +806,7 @@ func (t *runner) corruptions(d *doc) {
 			cid := fmt.Sprintf("%s.%d", id, len(mut))
 			e.Line("impl.obs", "%s %s", cid, obs)
 			what := "xref corruption " + rg.name + "/" + fill
-			t.oracle(d, mut, len(mut), fi, err, what, cid, spur)
+			t.oracle(d, mut, len(mut), fi, err, what, cid, spur, t.direct)
 			// the located objects must be those of the intact file
 			obs0, _, _, _, _ := observe(data, false)
 			if err == nil {
@@ -918,8 +918,8 @@ func main() {
 	}
 	kds := []kd{{0, 0, 2200, 1, false}, {37, 11, 3300, 0, true}, {333, 23, 4100, 2, true}}
 	if e.Thorough {
-		for p := 1; p <= 64; p++ {
-			kds = append(kds, kd{p * 16, p * 5, 2300 + 29*p, p % 4, p%2 == 0})
+		for p := 1; p <= 32; p++ {
+			kds = append(kds, kd{p * 32, p * 5, 2300 + 29*p, p % 4, p%2 == 0})
 		}
 	}
 	for _, k := range kds {
@@ -949,6 +949,8 @@ func main() {
 	e.Finish("a case is non-trivial when at least one object is complete within the available bytes (truncations) or always (xref corruptions); distinct by the last 40 available bytes / by file", nil)
 }
 
+func (t *runner) direct(sig, what string, c any) { failCapped(t.e, sig, what, c) }
+
 // allCutsSparse runs the listed cuts only (corpus cases)
 func (t *runner) allCutsSparse(d *doc, cuts []int) {
 	e := t.e
@@ -964,7 +966,7 @@ func (t *runner) allCutsSparse(d *doc, cuts []int) {
 		cid := fmt.Sprintf("%s.%d", id, cut)
 		e.Line("cases.txt", "%s C %d x %s", cid, cut, pcs)
 		e.Line("impl.obs", "%s %s", cid, obs)
-		t.oracle(d, data, cut, fi, err, "truncation (corpus: "+d.class+")", cid, spur)
+		t.oracle(d, data, cut, fi, err, "truncation (corpus: "+d.class+")", cid, spur, t.direct)
 		e.Count(true, cid, "corpus "+d.class)
 	}
 }
